@@ -163,7 +163,7 @@ def fits_ids(shape):
             and shape.region_count() < 0xFF
             and shape.ortho_units() < 0x100
             and all(n.width < 0xFF for n in shape.nodes())
-            and shape.serial_bits() < 0x100          # ArgsT::SERIAL_BITS is a `Short`
+            and shape.serial_bits() < 0x10000        # RF_/ArgsT::SERIAL_BITS are `Long`s
             and shape.task_capacity() < 0xFFFF)
 
 
